@@ -127,7 +127,7 @@ class C19(Prop):
         "subsequence with unchanged original mnemonic, unit, value, description",
         "corpus bases are the UTF-8 decodable example files that lasio reads without the junk; others are skipped",
     ]
-    quick = {"runs": 3000, "wall": 40}
+    quick = {"runs": 12000, "wall": 60}
     thorough = {"runs": 200000, "wall": 900}
 
     def enum_base(self):
